@@ -538,6 +538,13 @@ class Transaction:
         # 2. Process deletes (rewrite affected manifests)
         final_manifests: List[ManifestFile] = []
         if deleted_paths:
+            # Paths are table-relative and a leading "/" is insignificant
+            # everywhere else ("/data/x" and "data/x" resolve to the same
+            # file), so compare both sides in normalised form. Matching only
+            # the stored path's stripped form against the raw arguments missed
+            # delete_files(["/data/x"]) for a file registered as "data/x":
+            # the delete committed and removed nothing.
+            deleted_normalised = {p.lstrip("/") for p in deleted_paths}
             for manifest in existing_manifests:
                 manifest_path = manifest.manifest_path
                 if manifest_path.startswith("/"):
@@ -553,8 +560,7 @@ class Transaction:
 
                 surviving_files = [
                     f for f in data_files
-                    if f.file_path not in deleted_paths
-                    and f.file_path.lstrip("/") not in deleted_paths
+                    if f.file_path.lstrip("/") not in deleted_normalised
                 ]
 
                 if len(surviving_files) == len(data_files):
